@@ -153,6 +153,13 @@ def check(ctx):
     r_provenance(ctx)
     r_delivery(ctx)
     satisfy.r_finalizers(ctx, 'R05.6')
+    satisfy.r_witness_node_typing(ctx, 'R05.9')
+    # the supplied value reaches the witness node as StructuralValue::from(value): its encoding must follow the value's own type
+    from . import c07
+    c07.r_value_to_structural(ctx, 'R05.7')
+    c07.r_sum_leaves(ctx)
+    c07.r_shared_callee(ctx)
+    c07.r_layout_tables(ctx, 'R05.8')
     if ctx.tier == 'thorough':
         from .. import witness
         witness.run(ctx, 'R05.W', ['W1', 'W3'])
